@@ -632,7 +632,7 @@ def run_damage(run, vsim, d, quick, model=None):
                     run.mismatch("text-reader-tie", {"cut": cut, "of": n, "tail": data[max(0, cut - 30):cut].decode("latin1")}, verdict, mo.strip())
             stats["text_reader_model_cases"] = len(lines)
             stats["text_reader_model_disagreements"] = ndis
-        flips = [(r.randrange(n), r.randrange(8)) for j in range(60 if quick else 5000)]
+        flips = [(r.randrange(n), r.randrange(8)) for j in range(60 if quick else 4000)]
         if nm == "text":
             # aimed: every byte of the configuration block (step, dt, version, units and the separators)
             a0 = data.find(b"{"); b0 = data.find(b"}")
